@@ -3,6 +3,7 @@
 package main
 
 import (
+	"compress/gzip"
 	"bufio"
 	"context"
 	"fmt"
@@ -167,6 +168,13 @@ func pxNew(strategy, ids, base string) string {
 		cfg.Plugins.Enabled = true
 		cfg.Plugins.Chain = []config.PluginConfig{{Name: "logging"}}
 	}
+	if strings.Contains(pxFeatures, "g") {
+		// the gzip plugin where buildHandler puts it (C15 front-end episodes): the client of this
+		// harness then reports the *decoded* payload of a gzip-encoded answer
+		cfg.Plugins.Enabled = true
+		cfg.Plugins.Chain = append(cfg.Plugins.Chain, config.PluginConfig{Name: "gzip", Config: map[string]interface{}{
+			"level": 6, "min_size": 1, "content_types": []interface{}{"text/", "application/json"}}})
+	}
 	lb, err := loadbalancer.NewLoadBalancer(cfg)
 	if err != nil {
 		e.close()
@@ -302,8 +310,17 @@ func pxExchange(mode, method, target, hdrs string, reqlen int, framing string, s
 	var tFirst time.Duration = -1
 	buf := make([]byte, 32<<10)
 	var rerr error
+	var rbody io.Reader = resp.Body
+	if strings.Contains(pxFeatures, "g") && mode != "direct" && resp.Header.Get("Content-Encoding") == "gzip" {
+		if zr, zerr := gzip.NewReader(resp.Body); zerr == nil {
+			rbody = zr
+		} else {
+			rerr = zerr
+			rbody = strings.NewReader("")
+		}
+	}
 	for {
-		k, er := resp.Body.Read(buf)
+		k, er := rbody.Read(buf)
 		if k > 0 {
 			if tFirst < 0 {
 				tFirst = time.Since(t0)
